@@ -161,7 +161,7 @@ func cfMakeContents() *cfContents {
 	}
 	bw := append([]byte(nil), big...)
 	bw[len(bw)-1] ^= 0x5a
-	order := []string{"c", "w", "s", "l", "e", "x", "B", "Bw", "Bs", "Bl"}
+	order := []string{"c", "w", "s", "l", "e", "x", "B", "Bw", "Bs", "Bl", "Bh"}
 	c.bytes["c"] = []byte("c\x00")
 	c.bytes["w"] = []byte("\xffw")
 	c.bytes["s"] = []byte("c")
@@ -172,6 +172,7 @@ func cfMakeContents() *cfContents {
 	c.bytes["Bw"] = bw
 	c.bytes["Bs"] = big[:len(big)-1]
 	c.bytes["Bl"] = append(append([]byte(nil), big...), '!')
+	c.bytes["Bh"] = big[:len(big)/2]
 	for _, id := range order {
 		b := c.bytes[id]
 		h := sha256.Sum256(b)
@@ -655,6 +656,14 @@ func (t *cfTransport) RoundTrip(req *http.Request) (*http.Response, error) {
 	}
 	t.exch = append(t.exch, cfExchange{q: q, r: lr, body: body})
 	t.mu.Unlock()
+	if r.Bend == "trunc" {
+		resp, err := cfWire(req, r.Code, h, body.data)
+		if err != nil {
+			panic(fmt.Sprintf("harness: response %d cannot be rendered on the wire: %v", k, err))
+		}
+		resp.Body = &cfCounting{rc: resp.Body, body: body}
+		return resp, nil
+	}
 	return &http.Response{
 		Status:        fmt.Sprintf("%d scripted", r.Code),
 		StatusCode:    r.Code,
@@ -667,6 +676,39 @@ func (t *cfTransport) RoundTrip(req *http.Request) (*http.Response, error) {
 		Request:       req,
 	}, nil
 }
+
+// cfWire sends the response through net/http's own HTTP/1.1 response parser: status line, the
+// rendered headers (Content-Length as announced), the body bytes, and then the connection
+// closes.  What the client gets is what a real transport hands it for such a wire image: in
+// particular a body that stops before its Content-Length ends in io.ErrUnexpectedEOF.
+func cfWire(req *http.Request, code int, h http.Header, data []byte) (*http.Response, error) {
+	var buf bytes.Buffer
+	fmt.Fprintf(&buf, "HTTP/1.1 %03d scripted\r\n", code)
+	for k, vs := range h {
+		for _, v := range vs {
+			fmt.Fprintf(&buf, "%s: %s\r\n", k, v)
+		}
+	}
+	buf.WriteString("\r\n")
+	buf.Write(data)
+	return http.ReadResponse(bufio.NewReader(bytes.NewReader(buf.Bytes())), req)
+}
+
+// cfCounting counts the body bytes of a wire-rendered response handed to the client.
+type cfCounting struct {
+	rc   io.ReadCloser
+	body *cfBody
+}
+
+func (c *cfCounting) Read(p []byte) (int, error) {
+	n, err := c.rc.Read(p)
+	c.body.mu.Lock()
+	c.body.consumed += int64(n)
+	c.body.mu.Unlock()
+	return n, err
+}
+
+func (c *cfCounting) Close() error { return c.rc.Close() }
 
 // cfLogResp: the response as logged (concrete numbers; every field the specification reads).
 func cfLogResp(r *cfResp, cl, blen int64, bcont string, items int64, mv int64) ev {
@@ -1163,6 +1205,20 @@ func cfNearFine(rnd *rand.Rand, call string) cfResp {
 	}
 	if len(r.Raw) == 0 {
 		r.Raw = nil
+		if r.Code >= 200 && r.Code <= 599 && r.Body != "endless" && rnd.Intn(3) == 0 {
+			// framed by HTTP/1.1, the connection closing after the body: the announced length is the body's, or more, or absent
+			_, _, body, _ := cfRender(&r, 1, call)
+			bl := int64(len(body.data))
+			if r.Body == "wszero" {
+				bl = 44 // its rendering varies with the position in the script: the longest variant
+			}
+			r.Bend = "trunc"
+			r.Cl = cfNum{K: []int64{bl, bl, bl + 1, bl + 1, 2*bl + 3, -1}[rnd.Intn(6)]}
+			if r.Body == "blob" && rnd.Intn(2) == 0 {
+				r.Bcont = cfPick(rnd, "e", "s", "Bh", "Bs")
+				r.Cl = cfNum{K: int64(len(cfCat.bytes[r.Bcont])) + []int64{1, 1, 2, cfThreshold}[rnd.Intn(4)]}
+			}
+		}
 	}
 	return r
 }
